@@ -94,7 +94,9 @@ func drawKind(t *rapid.T, tech string) string {
 	return rapid.SampledFrom(allKinds()).Draw(t, "hostileKind")
 }
 
-func isPrivate(s fwgen.TdxSection) bool { return s.Type == fwgen.TdxTDHOB || s.Type == fwgen.TdxTempMem }
+func isPrivate(s fwgen.TdxSection) bool {
+	return s.Type == fwgen.TdxTDHOB || s.Type == fwgen.TdxTempMem
+}
 
 func (o *hostOpts) capSize(t *rapid.T, typ uint32, v uint64) uint64 {
 	lim := o.tempCap
